@@ -333,7 +333,13 @@ impl Walrus {
                 // read from our file; alignment is ensured by `AlignedVec`.
                 // SAFETY: `aligned` is built from bounded bytes inside the block,
                 // copied into `AlignedVec` ensuring alignment for rkyv.
-                let archived = unsafe { rkyv::archived_root::<Metadata>(&aligned[..]) };
+                let archived = match rkyv::check_archived_root::<Metadata>(&aligned[..]) {
+                    Ok(a) => a,
+                    Err(_) => {
+                        // damaged header: same handling as an undecodable one
+                        break;
+                    }
+                };
                 let md: Metadata = match archived.deserialize(&mut rkyv::Infallible) {
                     Ok(m) => m,
                     Err(_) => {
